@@ -164,7 +164,7 @@ func (fc *FnCtx) evalCall(st *State, c *ast.CallExpr, stmt bool) Val {
 	}
 	if debugCalls {
 		how := "unknown"
-		if fc.findOnCall(name, pkgPath, kind, false) != nil {
+		if fc.findOnCall(name, pkgPath, kind, false, c) != nil {
 			how = "on-call"
 		} else if fc.lookupContract(name, pkgPath) != nil && fn != nil {
 			how = "contract"
@@ -175,11 +175,11 @@ func (fc *FnCtx) evalCall(st *State, c *ast.CallExpr, stmt bool) Val {
 	}
 	// 1. skeleton ghost effects declared by the enclosing function's contract
 	if staticName != "" {
-		if oc := fc.findOnCall(staticName, pkgPath, kind, false); oc != nil {
+		if oc := fc.findOnCall(staticName, pkgPath, kind, false, c); oc != nil {
 			return fc.applyOnCall(st, oc, c, args, resT, staticName)
 		}
 	}
-	if oc := fc.findOnCall(name, pkgPath, kind, false); oc != nil {
+	if oc := fc.findOnCall(name, pkgPath, kind, false, c); oc != nil {
 		return fc.applyOnCall(st, oc, c, args, resT, name)
 	}
 	// 2. callee contract
@@ -693,6 +693,7 @@ func (fc *FnCtx) unknownCall(st *State, c *ast.CallExpr, name, pkgPath string, f
 	}
 	if !fc.eng.knownPure(pkgPath, name) {
 		fc.havocs++
+		fc.havocBoxedArgs(st, args)
 		// everything reachable may change: objects (except stable fields), byte regions passed or reachable
 		fc.havocObjects(st, true)
 		fc.havocHeap(st, nil)
@@ -740,10 +741,15 @@ func (fc *FnCtx) havocEscaped(st *State) {
 // ---------------------------------------------------------------------------
 // skeleton "on call" effects
 
-func (fc *FnCtx) findOnCall(name, pkgPath, kind string, isGo bool) *OnCall {
+func (fc *FnCtx) findOnCall(name, pkgPath, kind string, isGo bool, call *ast.CallExpr) *OnCall {
 	if fc.contract == nil {
 		return nil
 	}
+	short := pkgPath
+	if k := strings.LastIndex(short, "/"); k >= 0 {
+		short = short[k+1:]
+	}
+	var generic *OnCall
 	for _, oc := range fc.contract.OnCalls {
 		cal := oc.Callee
 		if isGo != strings.HasPrefix(cal, "go:") {
@@ -751,18 +757,60 @@ func (fc *FnCtx) findOnCall(name, pkgPath, kind string, isGo bool) *OnCall {
 		}
 		cal = strings.TrimPrefix(cal, "go:")
 		cal = strings.ReplaceAll(strings.ReplaceAll(cal, "(*", ""), ")", "")
-		if cal == name {
-			return oc
+		if cal != name && !(short != "" && cal == short+"."+name) {
+			continue
 		}
-		short := pkgPath
-		if k := strings.LastIndex(short, "/"); k >= 0 {
-			short = short[k+1:]
+		if oc.Site > 0 {
+			// "on call F#k": only the k-th call site of F in source order
+			if call != nil && fc.callSite(call, cal) == oc.Site {
+				return oc
+			}
+			continue
 		}
-		if short != "" && cal == short+"."+name {
-			return oc
+		if generic == nil {
+			generic = oc
 		}
 	}
-	return nil
+	return generic
+}
+
+// callSite returns the 1-based ordinal of call among the call sites (source order) whose callee matches name.
+func (fc *FnCtx) callSite(call *ast.CallExpr, name string) int {
+	if fc.siteOrd == nil {
+		fc.siteOrd = map[*ast.CallExpr]map[string]int{}
+		counts := map[string]int{}
+		ast.Inspect(fc.body, func(n ast.Node) bool {
+			c, ok := n.(*ast.CallExpr)
+			if !ok {
+				return true
+			}
+			if tv, ok := fc.pkg.TypesInfo.Types[c.Fun]; ok && tv.IsType() {
+				return true
+			}
+			saved := fc.staticRecvName
+			fc.staticRecvName = ""
+			nm, pp, _, _, _ := fc.calleeInfo(c)
+			names := []string{nm}
+			if fc.staticRecvName != "" {
+				names = append(names, fc.staticRecvName)
+			}
+			fc.staticRecvName = saved
+			sh := pp
+			if k := strings.LastIndex(sh, "/"); k >= 0 {
+				sh = sh[k+1:]
+			}
+			m := map[string]int{}
+			for _, x := range names {
+				for _, full := range []string{x, sh + "." + x} {
+					counts[full]++
+					m[full] = counts[full]
+				}
+			}
+			fc.siteOrd[c] = m
+			return true
+		})
+	}
+	return fc.siteOrd[call][name]
 }
 
 func (fc *FnCtx) applyOnCall(st *State, oc *OnCall, c *ast.CallExpr, args []Val, resT types.Type, name string) Val {
@@ -831,12 +879,16 @@ func (fc *FnCtx) applyOnCall(st *State, oc *OnCall, c *ast.CallExpr, args []Val,
 	for _, u := range upds {
 		st.ghost[u.name] = fc.nameVal(u.v, "g_"+u.name)
 	}
+	fc.havocBoxedArgs(st, args)
 	if !oc.NoHavoc {
 		// sound default: besides its declared ghost effects the callee may change any object field that is not
 		// declared stable, and any byte region
 		fc.havocObjects(st, true)
 		fc.havocHeap(st, nil)
 		fc.havocEscaped(st)
+	}
+	for _, p := range oc.Modifies {
+		fc.havocPath(st, p, c)
 	}
 	for _, cl := range oc.Ensures {
 		t := fc.specBool(st, cl.Expr, &specEnv{fc: fc, st: st, old: pre, bind: bind, at: c.Pos(), scopeNode: c})
@@ -856,7 +908,7 @@ func (fc *FnCtx) applyOnCall(st *State, oc *OnCall, c *ast.CallExpr, args []Val,
 
 func (fc *FnCtx) execGo(st *State, g *ast.GoStmt) {
 	name, pkgPath, _, _, kind := fc.calleeInfo(g.Call)
-	if oc := fc.findOnCall(name, pkgPath, kind, true); oc != nil {
+	if oc := fc.findOnCall(name, pkgPath, kind, true, g.Call); oc != nil {
 		var args []Val
 		for _, a := range g.Call.Args {
 			args = append(args, fc.eval(st, a))
